@@ -73,6 +73,11 @@ class H(semh.Base):
             _, d = self.task
             dd = {"name": nm("X", "acbd"), "ns": "1 ns", "int": "1", "float": "1.5", "dt": "2 dt"}[d]
             body = f"delay [ {dd} ] q ;"
+        elif k == "shadow":
+            _, where = self.task
+            n = nm("N", "gkUaq")
+            body = {"gate-param": f"gate h ( {n} ) x {{ {n} x ; }}", "gate-qubit": f"gate h {n} {{ {n} {n} ; }}", "def-param": f"def e ( int {n} ) {{ {n} q ; }}",
+                    "loop-var": f"for int {n} in [ 0 : 1 ] {{ {n} q ; }}", "local": f"if ( true ) {{ int {n} ; {n} q ; }}", "local-nested": f"while ( true ) {{ int {n} ; if ( true ) {{ {n} q ; }} }}"}[where]
         elif k == "clean":
             body = self.task[1]
         else:
@@ -180,6 +185,15 @@ class H(semh.Base):
                 if "IncompatibleTypesError" not in kinds:
                     raise Violation(f"`{self.label()}`: a non-duration delay is not reported")
             return "delay"
+        if k == "shadow":
+            # the callee is the LAST occurrence of N: a local non-gate symbol hides any global gate of that name
+            pos = [self.starts[i] for i, (kn, text, j) in enumerate(self.toks) if isinstance(text, list) and len(text) == 1 and isinstance(text[0], SV) and text[0].e.decl().name() == "N"]
+            where = self.task[1]
+            call_at = pos[-2] if where == "gate-qubit" else pos[-1]
+            hit = [e for e in errs if e[1] <= call_at < e[2] and e[0] in ("IncompatibleTypesError", "UndefGateError")]
+            if not hit:
+                raise Violation(f"`{self.label()}`: calling a name that is locally bound to a non-gate symbol is not reported (diagnostics {kinds})")
+            return "shadow"
         if k == "clean":
             if errs:
                 raise Violation(f"`{self.label()}`: a program that breaks none of the rules gets diagnostics {kinds}")
@@ -216,6 +230,8 @@ def build_tasks(quick):
             tasks.append(("return", val, where))
     for d in ("name", "ns", "int", "dt"):
         tasks.append(("delay", d))
+    for where in ("gate-param", "gate-qubit", "def-param", "loop-var", "local", "local-nested"):
+        tasks.append(("shadow", where))
     for c in CLEAN:
         tasks.append(("clean", c))
     return tasks
